@@ -24,21 +24,26 @@ MkDecl(P, i) ==
   LET c == Below(R(1), 15)
       nm == NameOf(i)
       libsA == Kinds(P, {"slib", "shlib"})
+      libsD == Kinds(P, {"slib", "shlib", "dlib"})      \* (what programs and shared libraries may link)
       filesT == Kinds(P, {"exe", "slib", "shlib", "step", "copy"})
       exes == Kinds(P, {"exe"})
-      linked == Kinds(P, {"exe", "slib", "shlib"})
+      linked == Kinds(P, {"exe", "slib", "shlib", "dlib"})
       copied == UNION { FilesOf(P[j].ins) : j \in { x \in 1..Len(P) : P[x].kind = "copy" } }
       twoout == { P[j].name : j \in { x \in 1..Len(P) : P[x].kind = "step" /\ P[x].nouts = 2 } }
       hdrs == IF twoout # {} /\ Below(R(9), 2) = 0 THEN <<T(Pick(twoout, R(10)))>> ELSE <<>>
       exe0 == [Blank EXCEPT !.kind = "exe", !.name = nm, !.srcs = MkSrcs(P, 10),
-                            !.libs = PickN(libsA, Below(R(2), 3), 20), !.ins = hdrs]
+                            !.libs = PickN(libsD, Below(R(2), 3), 20), !.ins = hdrs]
       \* pch='<header name>' makes bfg9000 create one pch step per object: only with a single source
       xd == IF filesT # {} /\ Below(R(12), 5) = 0 THEN PickN(filesT, 1, 45) ELSE <<>>
       cd == IF filesT # {} /\ Below(R(14), 4) = 0 THEN PickN(filesT, 1, 47) ELSE <<>>
       exe == [exe0 EXCEPT !.xdeps = xd, !.cdeps = cd, !.hdr = (Below(R(13), 5) = 0), !.pch = (Len(exe0.srcs) = 1 /\ Below(R(11), IF hdrs # <<>> THEN 4 ELSE 16) < 3)] IN
   IF c <= 3 THEN exe
-  ELSE IF c <= 6 THEN [Blank EXCEPT !.kind = (IF c = 6 THEN "shlib" ELSE "slib"), !.name = nm, !.srcs = MkSrcs(P, 10),
-                                    !.libs = PickN(libsA, Below(R(2), 2), 20), !.ins = hdrs, !.xdeps = xd, !.cdeps = cd,
+  \* (a dual-use library - library() - instead of every second shared one; no extra_deps: they would
+  \*  belong to both of its link steps)
+  ELSE IF c <= 6 THEN [Blank EXCEPT !.kind = (IF c = 6 THEN (IF Below(R(15), 2) = 0 THEN "dlib" ELSE "shlib") ELSE "slib"),
+                                    !.name = nm, !.srcs = MkSrcs(P, 10),
+                                    !.libs = PickN(IF c = 6 THEN libsD ELSE libsA, Below(R(2), 2), 20), !.ins = hdrs,
+                                    !.xdeps = (IF c = 6 /\ Below(R(15), 2) = 0 THEN <<>> ELSE xd), !.cdeps = cd,
                                     !.hdr = (Below(R(13), 6) = 0)]
   ELSE IF c <= 8 THEN
        LET fins == PickN({"d1", "s3"}, Below(R(3), 2), 30)
@@ -66,7 +71,8 @@ MkDecl(P, i) ==
                        ELSE LET e1 == PickN(exes, 1, 40)
                                 more == IF Below(R(3), 2) = 0 THEN PickN(filesT \ {e1[1]}, 1, 42) ELSE <<>> IN
                             [Blank EXCEPT !.kind = "test", !.name = nm, !.deps = e1 \o more])
-  ELSE IF c = 13 THEN (IF filesT = {} THEN exe ELSE [Blank EXCEPT !.kind = "default", !.name = nm, !.deps = PickN(filesT, 1 + Below(R(3), 2), 40)])
+  ELSE IF c = 13 THEN (IF filesT = {} THEN exe ELSE [Blank EXCEPT !.kind = "default", !.name = nm,
+                                                                   !.deps = PickN(filesT \cup Kinds(P, {"dlib"}), 1 + Below(R(3), 2), 40)])
   ELSE (IF linked = {} THEN exe ELSE [Blank EXCEPT !.kind = "install", !.name = nm, !.deps = PickN(linked, 1, 40)])
 GenInit == /\ rng \in { SeedOf(i, SeedBase) : i \in 1..NSeeds } /\ script = <<>>
            /\ len = 3 + Below(Nth(rng, 2), MaxDecls - 2)
